@@ -103,10 +103,18 @@ fn render(k: usize, case: &Value, pts: &[Option<i128>]) -> Rendered {
     let hi = case["hi"].as_u64().unwrap() as usize;
     let ext = case["ext"].as_bool().unwrap();
     let e = if ext { ", ..." } else { "" };
+    let op = case["op"].as_str().unwrap_or("none");
+    let (lo2, hi2) = (case["lo2"].as_u64().unwrap_or(0) as usize, case["hi2"].as_u64().unwrap_or(0) as usize);
+    let second = |pts: &[Option<i128>]| if lo2 == hi2 { bound(pts, lo2) } else { format!("{}..{}", bound(pts, lo2), bound(pts, hi2)) };
     let c = if case["form"] == "single" {
         format!("({}{e})", bound(pts, lo))
     } else {
-        format!("({}..{}{e})", bound(pts, lo), bound(pts, hi))
+        match op {
+            "|" => format!("({}..{} | {}{e})", bound(pts, lo), bound(pts, hi), second(pts)),
+            "^" => format!("({}..{} ^ {}{e})", bound(pts, lo), bound(pts, hi), second(pts)),
+            "serial" => format!("({}..{})({}{e})", bound(pts, lo), bound(pts, hi), second(pts)),
+            _ => format!("({}..{}{e})", bound(pts, lo), bound(pts, hi)),
+        }
     };
     let val = case["val"].as_u64().unwrap_or(0) as usize;
     let v = if val > 0 { bound(pts, val) } else { String::new() };
@@ -127,6 +135,8 @@ fn observe(case: &Value, r: &Rendered, o: &run::Outcome, krate: &rsproj::RCrate,
     let mut ev = json!({
         "ev": "int", "k": k, "lo": case["lo"], "hi": case["hi"], "ext": case["ext"], "pos": case["pos"],
         "form": case["form"], "val": case["val"], "asn": r.text,
+        "op": case.get("op").cloned().unwrap_or(json!("none")), "lo2": case.get("lo2").cloned().unwrap_or(json!(0)),
+        "hi2": case.get("hi2").cloned().unwrap_or(json!(0)),
         "status": o.status, "ty": "", "haslit": false, "lit_pt": 0, "lit_ty": "", "detail": "",
     });
     if o.status != "ok" {
